@@ -414,8 +414,11 @@ func cmdCheck(args []string) int {
 		if os.Getenv("GOVC_DEBUG") != "" {
 			fmt.Printf("DEBUG %s answer=%s solver=%s %.2fs %v\n", o.Name, r.R.Answer, r.R.Solver, r.R.Seconds, r.R.ByProc)
 		}
-		if vacuousFn[o.Fn] {
+		if vacuousFn[o.Fn] && r.R.Answer != "sat" {
+			// (a refutation stays a refutation: `sat` means the hypotheses are consistent at that point; a failed
+			// point assertion is assumed afterwards, which is what makes the rest of such a function unreachable)
 			r.Out = "undecided"
+			fmt.Printf("UNDECIDED obligation=%s reason=function vacuous\n", o.Name)
 			undecided = append(undecided, o.Name+": function vacuous")
 			continue
 		}
